@@ -11,6 +11,7 @@ import math
 import random
 
 import vlib
+from checks import ext_cells
 
 LEVEL = "model_checking"
 
@@ -288,3 +289,4 @@ def run(ctx):
     ctx.replay(static)
     ctx.replay(hist)
     ctx.exhaustive = (not q)
+    ext_cells.run_expand(ctx)
